@@ -2,7 +2,7 @@ INIT Init
 NEXT Next
 CONSTANTS
   Blocks = {"dataq", "tags", "metaq", "seq", "seq3"}
-  Script <- NoScript
+  Script <- RandScript
   T0 = 2000000043
   FutureSlots = 3
   TagShift = 100
